@@ -69,6 +69,74 @@ def record_length_prefix(h):
         h.cover("c18.record.roundtrip-long", L >= 65000)
 
 
+BATCH_PLAINTEXT = [22, 600, 65000, 65519, 65520, 65521, 65527, 65535, 65536, 70000]
+
+
+def record_batch_paths(h):
+    """two messages in ONE record through write_msg_batch / frame_vectored (the session's batch egress paths);
+    plaintext totals straddle the 16-bit record limit minus the 16-byte tag"""
+    tots = h.params.get("plaintext_totals", BATCH_PLAINTEXT)
+    P = tots[h.choose(len(tots), "plaintext_total")]
+    path = h.choose(2, "path")                     # 0 write_msg_batch, 1 frame_vectored
+    # two frames; header is 2 bytes for payloads <= 255 and 9 bytes above
+    def split(P):
+        for h1 in (2, 9):
+            for h2 in (2, 9):
+                rest = P - h1 - h2
+                a = rest // 2
+                b = rest - a
+                if rest >= 0 and (h1 == 2) == (a <= 255) and (h2 == 2) == (b <= 255):
+                    return a, b
+        raise AssertionError(P)
+    L1, L2 = split(P)
+    _abstract_cipher(h)
+    tx, rx = _framer(h), _framer(h)
+    fbs = []
+    for L in (L1, L2):
+        fb = Ref(Cell(h.method("message::FrameBatch", "new"), "fb"), ())
+        h.method("message::FrameBatch", "push", fb, _msg_of_len(h, L))
+        fbs.append(fb.load())
+    batch = SliceRef(Seq("vec", fbs, "message::FrameBatch"), 0, 2)
+    h.panic_role = "c18.batch"
+    if path == 0:
+        r = h.method(LPF, "write_msg_batch", tx, batch, trait="ISecureFramer")
+        if r.idx == 1:
+            h.cover("c18.batch.refused-at-sender")
+            return
+        wire = list(r.f[0].f)
+    else:
+        fv = h.it.prog.resolve_method("", LPF, "frame_vectored", "ISecureFramer")     # an override, if the framer has one
+        r = h.call(fv, tx, batch) if fv else h.call("security::framer::ISecureFramer::frame_vectored", tx, batch)
+        if r.idx == 1:
+            h.cover("c18.batch.refused-at-sender")
+            return
+        wire = [b for chunk in r.f[0].f for b in chunk.f]
+    acc = Ref(Cell(Seq("bytesmut", wire), "acc"), ())
+    for k, L in enumerate((L1, L2)):
+        got = h.method(LPF, "try_read_msg", rx, acc, trait="ISecureFramer")
+        ok_ = got.idx == 0 and got.f[0].idx == 1
+        h.check(ok_, "c18.batch.peer-cannot-decode-what-was-sent",
+                f"batch of {L1}+{L2} payload bytes ({P} plaintext bytes, {P + TAG} ciphertext bytes): sender returned Ok, the peer's record layer did not produce message {k}")
+        if not ok_:
+            return
+        m = got.f[0].f[0]
+        d = m.f[0]
+        n = len(d.f[0].f) if d.idx == 1 else 0
+        h.check(n == L, "c18.batch.payload-length-changed", f"sent {L} bytes, peer decoded {n}")
+    h.check(not acc.load().f, "c18.batch.residue-left")
+    h.cover("c18.batch.roundtrip")
+    h.cover("c18.batch.roundtrip-long", P >= 65000)
+
+
+def replay_record_batch_paths(model, params, role):
+    d = dict(map(tuple, model.get("_choices", [])))
+    tots = params.get("plaintext_totals", BATCH_PLAINTEXT)
+    P = tots[d.get("plaintext_total", 0)]
+    path = d.get("path", 0)
+    return f"record_batch {P} {path}\n", (lambda out: "NOT decoded" in out or "decode error" in out), \
+        f"record layer with a 16-byte-tag cipher, two messages totalling {P} plaintext bytes in one record through {'frame_vectored' if path else 'write_msg_batch'}; expecting the peer to fail to decode them"
+
+
 def heartbeat_through_record_layer(h):
     """engine in the Data phase whose active framer is the encrypted record layer: the PING emitted by
     on_tick and the PONG emitted for an inbound PING must be readable by the peer's record layer"""
